@@ -118,8 +118,8 @@ def run(ctx: vlib.Ctx):
     ctx.theorems("props/C17_closed.vo", ["C17_closed_sound", "C17_attrs_closed_sound", "C17_binding_partial", "C17_same_name_refuted",
                                           "C17_binding_refuted", "C17_clean_id_refuted", "C17_shard_sound", "C17_binding", "C17_first_import_wins_refuted",
                                           "C17_prepopulated_refuted", "C17_not_at_qualname_refuted", "C17_local_root_refuted",
-                                          "C17_binding_chain_refuted", "C17_binding_ok_sound", "C17_assembly_ok_sound"])
-    ctx.coqchk(["VerifProps.C17_closed"])
+                                          "C17_binding_chain_refuted", "C17_binding_ok_sound", "C17_assembly_ok_sound", "C17_render_named", "C17_render_chain"])
+    ctx.coqchk(["VerifProps.C17_closed", "VerifProps.C17_cleanid"])
     ctx.trusted += [
         "harness/c17_translate.py: Python ast -> Closed.v AST (fail-closed; interning of names is injective by construction); "
         "the abstraction itself: expressions = tree of loaded names, attribute access / calls / operators never bind names",
@@ -134,6 +134,12 @@ def run(ctx: vlib.Ctx):
         "it only grows afterwards (setdefault never removes)",
         "harness/c17_run.py program_world / program_assembly: extraction of the object model (which objects the chains touch, recorded imports via "
         "run-time rebinding of CodeBuilder.ensure_object_imported / ensure_module_imported) and its serialisation into the shard files",
+        "harness/c17_render.py: independent reading of typing objects into Render.rty (types outside the grammar - TypeVar, Unpack, ForwardRef, "
+        "Callable - are skipped and counted); Render.render is compared with mashumaro's type_name on every field annotation of every generated "
+        "schema and with the text of the generated MissingField paths / defaultdict factories",
+        "kernel K42 (tools/kernels/k42_clean_id.py): the regular expression \\W|^(?=\\d) is read as a character map after checking that the pattern "
+        "text and the body of clean_id are exactly the expected ones (fail closed); the \\w / \\d tables below code point 0x3000 come from Python's re "
+        "with the pattern read from the source and are validated against the real clean_id exhaustively on every run; code points >= 0x3000 are outside the kernel",
         "NsBind.clean_id models re.sub(r'\\W|^(?=\\d)', '_', s) for ASCII input only (compared with the implementation each run)",
     ]
     ctx.assumptions += [
@@ -212,6 +218,9 @@ def run(ctx: vlib.Ctx):
         ctx.count(("prog", hash(t)), n=0)
     ctx.hist("programs", "captured", len(programs))
     ctx.hist("programs", "distinct-modulo-uuid", len(texts))
+
+    # ---- type_name model vs implementation, and vs the text of the generated error paths
+    render_corr(ctx, all_res)
 
     # ---- per-program kernel-checked closedness (translation validation)
     t_workers = time.time() - t_start
@@ -414,6 +423,36 @@ def _parse_lists(out: str) -> list[list[int]]:
     return res
 
 
+def render_corr(ctx, all_res):
+    cases = []
+    checked = 0
+    missing = []
+    for fam, r in all_res:
+        for term, exp in r.get("render_cases", []):
+            cases.append((term, exp))
+        rc = r.get("render_contain") or {}
+        checked += rc.get("checked", 0)
+        missing += [f"{fam}/{r['idx']} {m}" for m in rc.get("missing", [])]
+    cs = list(dict.fromkeys(cases))
+    ctx.hist("render", "annotations-read", len(cases))
+    bad, log = vlib.coq_bad_idx(f"c17_render_{ctx.seed}", "Render", "", "", [f"({t}, {vlib.coq_str(e)})" for t, e in cs],
+                                "fun c => String.eqb (render false (fst c)) (snd c)", "rty * string", shard=700, needs=["theories/Render.vo"])
+    name = "Render.render (model of type_name) vs mashumaro type_name on the field annotations of the generated schemas"
+    if bad is None:
+        ctx.correspondence(name, len(cs), -1, log)
+        ctx.not_shown("correspondence type_name model", log)
+    else:
+        ctx.correspondence(name, len(cs), len(bad), "; ".join(cs[i][1] for i in bad[:6]))
+        if bad:
+            ctx.not_shown("correspondence type_name model", "model and implementation render differently: " + "; ".join(f"{cs[i][1]!r} <- {cs[i][0][:200]}" for i in bad[:5]))
+    ctx.correspondence("the rendering occurs verbatim (or through clean_id) in the MissingField path of the generated from_dict of every required field, and as the factory of every DefaultDict field",
+                       checked, len(missing), "; ".join(missing[:6]))
+    ctx.obligation("generated error paths contain the modelled rendering of the field type", not missing, "; ".join(missing[:6]))
+    if missing:
+        ctx.not_shown("rendering in generated error paths", "; ".join(missing[:10]))
+    ctx.count(n=len(cs))
+
+
 def clean_id_corr(ctx):
     import random
     from mashumaro.core.meta.types.common import clean_id
@@ -432,6 +471,43 @@ def clean_id_corr(ctx):
         ctx.correspondence("clean_id-model-vs-implementation", len(cases), len(bad), str([strs[i] for i in bad[:10]]))
         if bad:
             ctx.not_shown("correspondence clean_id", f"inputs {[strs[i] for i in bad[:10]]}")
+    ctx.count(n=len(cases))
+    k42_corr(ctx)
+
+
+def k42_corr(ctx):
+    """translated kernel K42 (clean_id as a character map) vs the real clean_id: every code point below 0x3000 alone and
+    after a letter (thorough: also in front of a digit), plus random strings"""
+    import random
+    from mashumaro.core.meta.types.common import clean_id
+    ctx.theorems("props/C17_cleanid.vo", ["C17_clean_id_identifier", "C17_clean_id_length", "C17_clean_id_kernel_refuted"], kernels=["K42"])
+    if not ctx.kernel_report.get("K42", {}).get("ok"):
+        return
+    rng = random.Random(f"c17-k42-{ctx.seed}")
+    strs = []
+    for cp in range(0x3000):
+        strs.append(chr(cp))
+        strs.append("a" + chr(cp))
+        if not ctx.quick():
+            strs.append(chr(cp) + "1")
+    alphabet = "abzAZ09_.<>-[], '\"\\/:+*()!~\x7f\x01\u00b2\u00e9\u0660\u0966\u2160\u2028\u00aa\u0300\u2f00"
+    for _ in range(ctx.budget(400, 4000)):
+        strs.append("".join(rng.choice(alphabet) for _ in range(rng.randrange(0, 10))))
+
+    def lst(x):
+        return "[" + "; ".join(str(ord(ch)) for ch in x) + "]%N"
+    cases = [f"({lst(x)}, {lst(clean_id(x))})" for x in strs]
+    bad, log = vlib.coq_bad_idx(f"c17_k42_{ctx.seed}", "", "From VerifGen Require Import K42.", "", cases,
+                                "fun c => if list_eq_dec N.eq_dec (K42.clean_id (fst c)) (snd c) then true else false",
+                                "list N * list N", shard=7000, needs=["gen/K42.vo"])
+    name = "K42 (clean_id translated as a character map) vs mashumaro clean_id: all code points below 0x3000 + random strings"
+    if bad is None:
+        ctx.correspondence(name, len(cases), -1, log)
+        ctx.not_shown("translation validation K42", log)
+    else:
+        ctx.correspondence(name, len(cases), len(bad), str([strs[i] for i in bad[:8]]))
+        if bad:
+            ctx.not_shown("translation validation K42", f"inputs {[strs[i] for i in bad[:8]]!r}")
     ctx.count(n=len(cases))
 
 
